@@ -372,12 +372,15 @@ Fixpoint dedup (l : list sty) : list sty :=
   | [] => []
   | t :: r => if existsb (sty_eqb t) r then dedup r else t :: dedup r
   end.
+Definition is_discrete (t : sty) : bool :=
+  is_int t || match t with SEnum _ _ _ | SBool | SBit | SChar => true | _ => false end.
 Definition op_class_ok (op : binop) (t : sty) : bool :=
   match op with
   | OAnd | OOr => match t with SBool | SBit => true | _ => false end
   | OAdd | OSub | OMul => is_int t
   | OEq | ONe => match t with SErr => false | _ => true end
-  | OLt => is_int t || match t with SEnum _ _ _ | SBool | SBit | SChar => true | _ => false end
+  (* ordering: scalar types and one-dimensional arrays of discrete elements (LRM 9.2.3) *)
+  | OLt => is_discrete t || match t with SArr _ _ _ el => is_discrete el | _ => false end
   end.
 Definition op_result (op : binop) (t : sty) : sty :=
   match op with OEq | ONe | OLt => SBool | _ => t end.
@@ -388,6 +391,16 @@ Definition op_types (G : env) (op : binop) (li ri : list sty) : list sty :=
          (dedup (li ++ ri)).
 Definition op_interps (G : env) (op : binop) (li ri : list sty) : list sty :=
   flat_map (fun t => repeat (op_result op t) (count_fits t li * count_fits t ri)) (op_types G op li ri).
+
+(* an aggregate as operand of an operator takes its type from the other operand, which must have exactly one
+   composite type for which the operator is defined and visible (LRM 9.3.3.1: the type of an aggregate is
+   determined from the context alone) *)
+Definition is_aggregate (e : expr) : bool := match e with EAgg _ _ => true | _ => false end.
+Definition agg_type (G : env) (op : binop) (li : list sty) : option sty :=
+  match dedup (filter is_composite li) with
+  | [t] => if op_class_ok op t && ops_visible G t then Some t else None
+  | _ => None
+  end.
 
 Definition crit (n : nat) : bool :=
   match md with Exactly => (n =? 1)%nat | AtLeast => (1 <=? n)%nat end.
@@ -452,13 +465,28 @@ Fixpoint interp (G : env) (e : expr) {struct e} : res (list sty) :=
       al <- interp_args G a ;;
       Ok (flat_map (fun c => repeat (snd c) (call_ways (fst c) al)) (funs_of bs))
   | EBin i op l r =>
-      li <- interp G l ;;
-      ri <- interp G r ;;
-      Ok (op_interps G op li ri)
+      if is_aggregate r then
+        if is_aggregate l then Ok [] else
+        li <- interp G l ;;
+        match agg_type G op li with
+        | Some t => root_gen (interp G) (root_fields G) (root_elems G) (blame G) t r ;;; Ok [op_result op t]
+        | None => Ok []
+        end
+      else if is_aggregate l then
+        ri <- interp G r ;;
+        match agg_type G op ri with
+        | Some t => root_gen (interp G) (root_fields G) (root_elems G) (blame G) t l ;;; Ok [op_result op t]
+        | None => Ok []
+        end
+      else
+        li <- interp G l ;;
+        ri <- interp G r ;;
+        Ok (op_interps G op li ri)
   | ENot i e =>
       li <- interp G e ;;
       Ok (filter (fun t => match t with SBool | SBit => true | _ => false end) li)
-  | EAgg i els => Ok []                      (* an aggregate is only legal as a complete context: see root *)
+  | EAgg i els => Ok []                      (* an aggregate is only legal as a complete context (see root) or as
+                                                an operand of an operator (see EBin) *)
   | EQual t e =>
       ty <- resolve_tmark G t ;;
       root_gen (interp G) (root_fields G) (root_elems G) (blame G) ty e ;;;
@@ -645,7 +673,12 @@ Definition check_cchoice (G : env) (t : sty) (c : cchoice) : res unit :=
   match c with
   | CCLit o =>
       bs <- vis_occ G o ;;
-      guard (existsb (fun b => match b_kind b with BLit t' => sty_eqb t t' | _ => false end) bs) (o_nid o) TypeMismatch
+      (* a choice must be a literal of the selector's type; an object of that type (a constant) is no type error
+         but outside the fragment *)
+      if existsb (fun b => match b_kind b with BLit t' => sty_eqb t t' | _ => false end) bs then Ok tt
+      else if existsb (fits t) (value_types bs) then Bad (o_nid o) Conservative
+      else if existsb is_deferred bs then Bad (o_nid o) Other       (* deferred constant before its full declaration *)
+      else Bad (o_nid o) TypeMismatch
   | CCInt i _ => guard (is_int t) i TypeMismatch
   end.
 Fixpoint check_list {A} (f : A -> res unit) (l : list A) : res unit :=
